@@ -12,6 +12,7 @@
   every node (stamps and parent pointers may differ); `run` executes a history of operations.
 -/
 import QlibcModel.Tree.WalkHistory
+import QlibcModel.Shapes.Tree
 
 namespace Qlibc.Props.C03
 open Qlibc Qlibc.Tree T
